@@ -450,6 +450,37 @@ pub fn run(ctx: &Ctx) -> Result<Report, String> {
             }
         }
     });
+    // (c) long single writes: 0..=5 bytes already written (open group of 0, 1 or 2 bytes), then ONE write of L
+    //     bytes for L around every power of two up to 64 KiB and around multiples of 768, then 0..=2 more bytes
+    let mut ladder: Vec<usize> = vec![];
+    for p in [256usize, 512, 768, 1024, 1536, 2048, 2304, 3072, 4096, 8192, 16384, 32768, 65536] {
+        for d in [-2i64, -1, 0, 1, 2, 3] {
+            ladder.push((p as i64 + d) as usize);
+        }
+    }
+    ladder.sort();
+    ladder.dedup();
+    let long_runs = AtomicU64::new(0);
+    ladder.par_iter().for_each(|l| {
+        for head in 0..=5usize {
+            for tail in 0..=2usize {
+                for head_whole in [true, false] {
+                    let data = content(head + l + tail);
+                    let mut parts: Vec<usize> = if head_whole && head > 0 { vec![head] } else { vec![1; head] };
+                    parts.push(*l);
+                    parts.extend(std::iter::repeat(1).take(tail));
+                    let pieces = crate::engine::util::split_by(&data, &parts);
+                    long_runs.fetch_add(1, Ordering::Relaxed);
+                    if let Some((kind, detail)) = encode_check(&pieces, false, usize::MAX) {
+                        let short = if detail.len() > 300 { format!("{}...", String::from_utf8_lossy(&detail.as_bytes()[..300])) } else { detail };
+                        viol.add(format!("enc:long-write:{kind}"), format!("{} bytes written as {} byte(s), then one write of {l}, then {tail} byte(s): {short}", data.len(), head), enc_witness(&pieces, false, usize::MAX));
+                    }
+                }
+            }
+        }
+    });
+    partitions_run.fetch_add(long_runs.load(Ordering::Relaxed), Ordering::Relaxed);
+    sizes.insert("encoder_long_single_writes".into(), json!(long_runs.load(Ordering::Relaxed)));
     c.enc_runs.fetch_add(partitions_run.load(Ordering::Relaxed), Ordering::Relaxed);
     sizes.insert("encoder_write_partitions".into(), json!(partitions_run.load(Ordering::Relaxed)));
     sizes.insert("encoder_all_partitions_up_to_len".into(), json!(full_part_len));
@@ -551,6 +582,35 @@ pub fn run(ctx: &Ctx) -> Result<Report, String> {
     });
     sizes.insert("decoder_group_runs".into(), json!(d3.load(Ordering::Relaxed)));
     lap("decoder groups");
+
+    // ---- D1b: long valid encodings through large reads into large destinations -----------------
+    let d1b = AtomicU64::new(0);
+    let long_lens: Vec<usize> = [255usize, 256, 257, 1023, 1024, 1025, 4095, 4096, 4097, 49_151, 49_152, 49_153, 65_535, 65_536, 65_537].to_vec();
+    let big_chunks: &[&[usize]] = &[&[1], &[63], &[64], &[1000], &[4096], &[100_000]];
+    let big_dsts: &[&[usize]] = &[&[3], &[64], &[1000], &[4096], &[100_000]];
+    long_lens.par_iter().for_each(|n| {
+        let data = content(*n);
+        let text = b64::encode(&data);
+        for chunks in big_chunks {
+            for dsts in big_dsts {
+                if chunks[0] == 1 && dsts[0] == 3 && *n > 5000 {
+                    continue;
+                }
+                d1b.fetch_add(1, Ordering::Relaxed);
+                let (problems, _) = decode_check(&text, chunks, true, dsts, Expect::Bytes(&data));
+                for (kind, detail) in problems {
+                    let short = if detail.len() > 300 { format!("{}...", String::from_utf8_lossy(&detail.as_bytes()[..300])) } else { detail };
+                    viol.add(
+                        format!("dec:valid-long:{kind}"),
+                        format!("{n} bytes, reader chunks {:?} (cyclic), destination {:?}: {short}", chunks, dsts),
+                        dec_witness(&text, chunks, true, dsts),
+                    );
+                }
+            }
+        }
+    });
+    c.dec_runs.fetch_add(d1b.load(Ordering::Relaxed), Ordering::Relaxed);
+    sizes.insert("decoder_long_runs".into(), json!(d1b.load(Ordering::Relaxed)));
 
     // ---- D4: length not a multiple of four must be an error ---------------------------------
     let d4 = AtomicU64::new(0);
